@@ -251,7 +251,7 @@ class Interp:
         if self.sticky:
             skey = (self.site(node), desc or (ast.unparse(node) if node is not None else "?"))
             ops_ = getattr(value, "operands", None)
-            if ops_ is not None and getattr(value, "tag", None) in ("cmp", "shape-eq"):
+            if ops_ is not None and getattr(value, "tag", None) in ("cmp", "shape-eq") and all(isinstance(o_, VTuple) for o_ in ops_):
                 # an equality test of two values: asked of other values (the kept key against the key of a later call) it is
                 # another question, not the same branch taken again
                 skey = skey + (("values", id(ops_[0]), id(ops_[1])),)
